@@ -12,6 +12,8 @@ import Proofs.Lemmas.C12Descr
 import Proofs.Lemmas.C12Dist
 import Proofs.Lemmas.C12Pct
 import Proofs.Lemmas.C12Bisect
+import Proofs.Lemmas.C12Lentz
+import Proofs.Lemmas.C12F64
 import Model.Stats.TTest
 
 namespace C12
@@ -105,6 +107,87 @@ theorem mean_between_bounds (xs : List ℚ) (hne : xs ≠ []) :
       mean_incremental_exact (x :: t) hne, c, ?_, ?_⟩
     · rw [le_div_iff₀ hl]; linarith
     · rw [div_le_iff₀ hl]; linarith
+
+/-! ### geometric mean -/
+
+theorem geoLoop_eq (log : ℚ → ℚ) (xs : List ℚ) : ∀ (m : ℚ) (i : ℕ), (∀ x ∈ xs, 0 < x) →
+    geoLoop log m i xs = some (meanLoop m i (xs.map log)) := by
+  induction xs with
+  | nil => intro m i _; rfl
+  | cons x t ih =>
+    intro m i h
+    have hx : ¬ x ≤ 0 := not_le.mpr (h x List.mem_cons_self)
+    have : ¬ (Arith.le x (Arith.ofNat 0 : ℚ) = true) := by rw [le_rat]; simpa using hx
+    simp only [geoLoop, this, if_false, List.map_cons, meanLoop, Bool.false_eq_true]
+    exact ih _ _ (fun y hy => h y (List.mem_cons_of_mem _ hy))
+
+/-- **geomean_structure** — for positive data `GeoMean` is exp of the (exact) arithmetic mean of
+the logs, whatever `log` and `exp` are. -/
+theorem geomean_structure (log exp : ℚ → ℚ) (xs : List ℚ) (hne : xs ≠ []) (hpos : ∀ x ∈ xs, 0 < x) :
+    geoMean log exp xs = some (exp (lsum (xs.map log) / (xs.length : ℚ))) := by
+  have he : xs.isEmpty = false := by cases xs <;> simp_all
+  have hl : 0 < (xs.map log).length := by simpa using List.length_pos_iff.mpr hne
+  unfold geoMean
+  simp only [he, Bool.false_eq_true, if_false, ofNat_rat, Nat.cast_zero]
+  rw [geoLoop_eq log xs 0 0 hpos, meanLoop_spec _ 0 0 (by omega)]
+  simp
+
+/-- a non-positive value makes `GeoMean` NaN -/
+theorem geomean_nonpositive (log exp : ℚ → ℚ) (xs : List ℚ) (h : ∃ x ∈ xs, x ≤ 0) :
+    geoMean log exp xs = none := by
+  have key : ∀ (ys : List ℚ) (m : ℚ) (i : ℕ), (∃ x ∈ ys, x ≤ 0) → geoLoop log m i ys = none := by
+    intro ys
+    induction ys with
+    | nil => intro m i h; obtain ⟨x, hx, _⟩ := h; simp at hx
+    | cons y t ih =>
+      intro m i h
+      by_cases hy : y ≤ 0
+      · have : Arith.le y (Arith.ofNat 0 : ℚ) = true := by rw [le_rat]; simpa using hy
+        unfold geoLoop
+        rw [if_pos this]
+      · have : ¬ (Arith.le y (Arith.ofNat 0 : ℚ) = true) := by rw [le_rat]; simpa using hy
+        simp only [geoLoop, this, if_false, Bool.false_eq_true]
+        obtain ⟨x, hx, hx0⟩ := h
+        rcases List.mem_cons.mp hx with e | hm
+        · subst e; exact absurd hx0 hy
+        · exact ih _ _ ⟨x, hm, hx0⟩
+  unfold geoMean
+  split
+  · rfl
+  · rw [key xs _ _ h]; rfl
+
+/-- **geomean_between_bounds** — for ANY monotone `log`, `exp` with exp(log x) = x on the
+positives: min ≤ GeoMean ≤ max for bounds lo, hi of positive data; and GeoMean of a constant
+positive sample is that constant, exactly. -/
+theorem geomean_between_bounds (log exp : ℚ → ℚ)
+    (hlog : ∀ u v, 0 < u → u ≤ v → log u ≤ log v) (hexp : ∀ u v, u ≤ v → exp u ≤ exp v)
+    (hinv : ∀ u, 0 < u → exp (log u) = u)
+    (xs : List ℚ) (hne : xs ≠ []) (lo hi : ℚ) (hlo : 0 < lo) (hb : ∀ x ∈ xs, lo ≤ x ∧ x ≤ hi) :
+    ∃ g, geoMean log exp xs = some g ∧ lo ≤ g ∧ g ≤ hi ∧ (lo = hi → g = lo) := by
+  have hpos : ∀ x ∈ xs, 0 < x := fun x hx => lt_of_lt_of_le hlo (hb x hx).1
+  have hhi : 0 < hi := by
+    obtain ⟨x, hx⟩ := List.exists_mem_of_ne_nil xs hne
+    exact lt_of_lt_of_le (hpos x hx) (hb x hx).2
+  refine ⟨_, geomean_structure log exp xs hne hpos, ?_, ?_, ?_⟩
+  all_goals
+    have hl : (0 : ℚ) < xs.length := by
+      have := List.length_pos_iff.mpr hne; exact_mod_cast this
+    have hbl : ∀ y ∈ xs.map log, log lo ≤ y ∧ y ≤ log hi := by
+      intro y hy
+      obtain ⟨x, hx, rfl⟩ := List.mem_map.mp hy
+      exact ⟨hlog _ _ hlo (hb x hx).1, hlog _ _ (hpos x hx) (hb x hx).2⟩
+    obtain ⟨l1, l2⟩ := lsum_between _ _ _ hbl
+    rw [List.length_map] at l1 l2
+    have m1 : log lo ≤ lsum (xs.map log) / xs.length := by rw [le_div_iff₀ hl]; linarith
+    have m2 : lsum (xs.map log) / xs.length ≤ log hi := by rw [div_le_iff₀ hl]; linarith
+  · calc lo = exp (log lo) := (hinv lo hlo).symm
+      _ ≤ _ := hexp _ _ m1
+  · calc _ ≤ exp (log hi) := hexp _ _ m2
+      _ = hi := hinv hi hhi
+  · intro e
+    subst e
+    have : lsum (xs.map log) / xs.length = log lo := le_antisymm m2 m1
+    rw [this, hinv lo hlo]
 
 /-! ### percentiles -/
 
@@ -240,6 +323,80 @@ theorem percentile_unsorted (xs : List ℚ) (p : ℚ) (hp : 0 < p ∧ p < 1) :
   unfold percentile
   simp only [hl, le_rat, ofNat_rat, Nat.cast_zero, Nat.cast_one, h0, h1, if_false,
     Bool.false_eq_true, if_true]
+
+/-! ### the float64 instance of the R8 interpolation -/
+section FloatPct
+open F64
+
+/-- **percentile_float_bounded_partial** — float64 instance, positive finite data: for finite
+positive floats a ≤ b, a float d ≥ 0 standing for the computed difference `b - a` with
+val a + val d ≤ val b (i.e. the subtraction was exact or rounded DOWN) and a fraction 0 ≤ frac ≤ 1,
+the interpolated value `a + frac*d` as computed in float64 (round-to-nearest-even at each of the
+two operations) lies in [a, b].  The lower bound a ≤ result needs no hypothesis on d.
+GAP (why `_partial`): when `b - a` is rounded UP the bound still holds, because frac < 1 makes
+fl(frac·d) ≤ pred(d) ≤ b − a (argument in notes/C12.md §7), but that step needs the spacing of
+adjacent floats, which the shared lemma library does not provide; it is checked by kernel
+evaluation on instances below and by the S layer (`pbound`) on every generated sample. -/
+theorem percentile_float_bounded_partial (a b frac d : Bits) (ha : PosFin a) (hb : PosFin b)
+    (hab : a.toNat ≤ b.toNat) (hd : NonNegFin d) (hf : NonNegFin frac) (hf1 : val frac ≤ 1) :
+    a.toNat ≤ (add a (mul frac d)).toNat ∧
+    (val a + val d ≤ val b → (add a (mul frac d)).toNat ≤ b.toNat) := by
+  rcases hf with hf0 | hfp
+  · have hm := mul_nonNeg_zero frac d (Or.inl hf0) hd (Or.inl hf0)
+    rw [hm, add_posZero a ha]
+    exact ⟨le_refl _, fun _ => hab⟩
+  · rcases hd with hd0 | hdp
+    · have hm := mul_nonNeg_zero frac d (Or.inr hfp) (Or.inl hd0) (Or.inr hd0)
+      rw [hm, add_posZero a ha]
+      exact ⟨le_refl _, fun _ => hab⟩
+    · obtain ⟨hle, hnn⟩ := mul_le_of_val_le_one frac d hfp hdp hf1
+      refine ⟨le_add_nonNeg a _ ha hnn, fun hv => ?_⟩
+      apply add_le_of_val_le a _ b ha hnn hb hab
+      have : val (mul frac d) ≤ val d := val_mono _ _ hdp.lt63 hle
+      linarith
+
+/-- **percentile_float_interp** — the same on the expression the code evaluates,
+`Xs[k-1] + frac*(Xs[k]-Xs[k-1])`, for finite positive floats a < b: the computed difference is
+the correctly rounded b − a (a non-negative finite float ≤ b), the result is ≥ a (FULL), and it is
+≤ b whenever the difference was not rounded up (PARTIAL, same gap as above). -/
+theorem percentile_float_interp (a b frac : Bits) (ha : PosFin a) (hb : PosFin b)
+    (hlt : val a < val b) (hf : NonNegFin frac) (hf1 : val frac ≤ 1) :
+    NonNegFin (sub b a) ∧
+    a.toNat ≤ (add a (mul frac (sub b a))).toNat ∧
+    (val (sub b a) ≤ val b - val a → (add a (mul frac (sub b a))).toNat ≤ b.toNat) := by
+  obtain ⟨n, d, hn, hd, he, hv⟩ := sub_posFin_val b a hb ha hlt
+  have hdb : (sub b a).toNat ≤ b.toNat := by
+    rw [he]
+    apply roundMag_le_of_le_val n d hn hd b hb
+    rw [hv]; linarith [val_pos ha]
+  have hnn := nonNegFin_of_le _ b hb hdb
+  have hab : a.toNat ≤ b.toNat := by
+    by_contra hc
+    have := val_mono b a ha.lt63 (by omega)
+    linarith
+  obtain ⟨lo, hi⟩ := percentile_float_bounded_partial a b frac (sub b a) ha hb hab hnn hf hf1
+  exact ⟨hnn, lo, fun h => hi (by linarith)⟩
+
+/-- instances of the GAP case by kernel evaluation: `b - a` rounds up, frac = 1 − 2^-53 (the
+largest float below 1), and the float64 result is still ≤ b -/
+example :
+    let a : Bits := 0x3fc24e7fc36a8b62; let b : Bits := 0x40057b8a009ecc70
+    sub b a = 0x400456a2046823ba ∧
+      (add a (mul 0x3FEFFFFFFFFFFFFF (sub b a))).toNat ≤ b.toNat ∧
+      a.toNat ≤ (add a (mul 0x3FEFFFFFFFFFFFFF (sub b a))).toNat := by decide +kernel
+example :
+    let a : Bits := 0x3fee127eadf83d59; let b : Bits := 0x4000aabe178d478d
+    (add a (mul 0x3FEFFFFFFFFFFFFF (sub b a))) = b := by decide +kernel
+
+/-- **percentile_float_overflow** — the bound FAILS for finite data of both signs whose spread
+exceeds the float64 range: for xs = [−MaxFloat64, +MaxFloat64] (flagged sorted) the model of
+`Sample.Percentile(0.5)` returns +Inf, because `Xs[k] − Xs[k−1]` overflows.  (Replayed on the
+real code: finding N12c in notes/C12.md.) -/
+theorem percentile_float_overflow :
+    (Stats.Descr.percentile [(⟨0xFFEFFFFFFFFFFFFF⟩ : Stats.Fl), ⟨0x7FEFFFFFFFFFFFFF⟩] true
+        ⟨0x3FE0000000000000⟩).map (·.bits) = some posInf := by decide +kernel
+
+end FloatPct
 
 /-! ### t-tests -/
 section TTest
@@ -576,6 +733,69 @@ theorem invcdf_inverts (cdf : ℚ → ℚ) (bl bh y x : ℚ) (fuel : ℕ) (hy : 
     injection h with h
     subst h
     exact ⟨hx2, x1, h12, hx1⟩
+
+/-! ### the continued fraction of `betacf` -/
+
+/-- **lentz_is_convergent** — as long as the tiny-value guard `raiseZero` does not fire, the state
+of the modified Lentz iteration after the partial numerators e₁ … e_{k+1} is
+c = A_{k+1}/A_k, d = B_k/B_{k+1}, h = A_{k+1}/B_{k+1}: h IS the (k+1)-th convergent of
+1/(1 + e₁/(1 + e₂/(1 + …))), with A, B the standard Wallis recurrence and
+e₁ = −(a+b)x/(a+1), e₂ₘ = m(b−m)x/((a+2m−1)(a+2m)), e₂ₘ₊₁ = −(a+m)(a+b+m)x/((a+2m)(a+2m+1)). -/
+theorem lentz_is_convergent (x a b : ℚ) (hg0 : guardInit x a b) (k : ℕ)
+    (hg : ∀ j, j < k → guardsOff x a b j) :
+    (lstate x a b k).h = cfA (cfNum x a b) (k + 1) / cfB (cfNum x a b) (k + 1) ∧
+    (lstate x a b k).c = cfA (cfNum x a b) (k + 1) / cfA (cfNum x a b) k ∧
+    (lstate x a b k).d = cfB (cfNum x a b) k / cfB (cfNum x a b) (k + 1) := by
+  have hi := lentz_inv x a b hg0 k hg
+  have := hi.a0; have := hi.b1
+  refine ⟨?_, ?_, ?_⟩
+  · rw [eq_div_iff hi.b1]; exact hi.h
+  · rw [eq_div_iff hi.a0]; exact hi.c
+  · rw [eq_div_iff hi.b1]; exact hi.d
+
+/-- the partial numerators are the ones written in beta.go -/
+theorem cfNum_formulas (x a b : ℚ) (m : ℕ) (hm : 1 ≤ m) :
+    cfNum x a b 1 = -((a + b) * x / (a + 1)) ∧
+    cfNum x a b (2 * m) = m * (b - m) * x / ((a + 2 * m - 1) * (a + 2 * m)) ∧
+    cfNum x a b (2 * m + 1) = -(a + m) * (a + b + m) * x / ((a + 2 * m) * (a + 2 * m + 1)) := by
+  refine ⟨by simp [cfNum], ?_, ?_⟩
+  · rw [cfNum_even x a b m hm]
+    simp [numEven, Stats.Beta.one, Stats.Beta.two]
+  · rw [cfNum_odd x a b m hm]
+    simp [numOdd, Stats.Beta.one, Stats.Beta.two]
+
+/-- **betacf_returns_convergent** — `betacf` returns exactly at the FIRST iteration m ≤ 200 whose
+`hfac = d·c` passes the code's test `|hfac − 1| < 3e-14`, and returns that iteration's h; when the
+guard never fired up to there, the value is the (2m+1)-th convergent and the tested quantity is the
+ratio of the last two convergents. -/
+theorem betacf_returns_convergent (x a b v : ℚ) (h : betacf x a b = some v) :
+    ∃ m, 1 ≤ m ∧ m ≤ 200 ∧ v = (lstate x a b (2 * m)).h ∧ stopTest x a b m ∧
+      (∀ m', 1 ≤ m' → m' < m → ¬ stopTest x a b m') ∧
+      (guardInit x a b → (∀ j, j < 2 * m → guardsOff x a b j) →
+        v = cfA (cfNum x a b) (2 * m + 1) / cfB (cfNum x a b) (2 * m + 1) ∧
+        hfac x a b m = v / (cfA (cfNum x a b) (2 * m) / cfB (cfNum x a b) (2 * m))) := by
+  obtain ⟨m, h1, h2, h3, h4, h5⟩ := (cfLoop_spec x a b maxIterations 1 (le_refl _)).1 v h
+  refine ⟨m, h1, by unfold maxIterations at h2; omega, h3, h4, h5, ?_⟩
+  intro hg0 hg
+  have hv := (lentz_is_convergent x a b hg0 (2 * m) hg).1
+  rw [← h3] at hv
+  refine ⟨hv, ?_⟩
+  rw [hv]
+  exact hfac_ratio x a b m h1 (lentz_inv x a b hg0 (2 * m) hg) (hg (2 * m - 1) (by omega))
+
+/-- **betacf_panic** — the panic "failed to converge" happens exactly when none of the 200
+iterations passes the test. -/
+theorem betacf_panic (x a b : ℚ) (h : betacf x a b = none) :
+    ∀ m, 1 ≤ m → m ≤ 200 → ¬ stopTest x a b m := by
+  intro m h1 h2
+  exact (cfLoop_spec x a b maxIterations 1 (le_refl _)).2 h m h1 (by unfold maxIterations; omega)
+
+instance (z : ℚ) : Decidable (GuardOff z) := by unfold GuardOff; infer_instance
+
+/-- the guard hypotheses are satisfiable (x = ½, a = 2, b = ½: first three numerators) -/
+example : guardInit (1/2) 2 (1/2) ∧ guardsOff (1/2) 2 (1/2) 0 ∧ guardsOff (1/2) 2 (1/2) 1 := by
+  unfold guardInit guardsOff
+  decide +kernel
 
 end Dist
 
